@@ -666,15 +666,174 @@ Proof. intros d ls. apply (pass_is_complete (TDelaySubscription d) d). reflexivi
 Theorem subscribe_on_is_complete : forall ls, pass_complete 0 ls (run_timed TSubscribeOn ls) = true.
 Proof. intros ls. apply (pass_is_complete TSubscribeOn 0). reflexivity. Qed.
 
-Theorem timed_complete_holds : forall o ls, timed_complete o ls (run_timed o ls) = true.
-Proof.
-  intros o ls. destruct o; try reflexivity; cbn [timed_complete];
-    [apply delay_is_complete|apply observe_on_is_complete|apply delay_subscription_is_complete|apply subscribe_on_is_complete].
-Qed.
-
 Example pass_complete_rejects_a_swallowed_item :
   pass_complete 3 [LRun 0; LAdv 3; LRun 0; LSrc (Next (VZ 7))] [TMark 0; TMark 1; TMark 2; TMark 3] = false /\
   pass_complete 3 [LRun 0; LAdv 3; LRun 0; LSrc (Next (VZ 7))] [TMark 0; TMark 1; TMark 2; TMark 3; TOut 3 (Next (VZ 7))] = true /\
   (* not yet subscribed: nothing is owed *)
   pass_complete 3 [LRun 0; LAdv 2; LRun 0; LSrc (Next (VZ 7))] [TMark 0; TMark 1; TMark 2; TMark 3] = true.
+Proof. repeat split; reflexivity. Qed.
+
+(* ================= timer ================= *)
+
+Record RM (d : N) (v : val) (s : tsys) (m : mstate) : Prop := {
+  rm_now : m_now m = now s;
+  rm_jobs : jobs s = [JTimer v];
+  rm_main : main_task s = Some 0%nat;
+  rm_on : src_on s = false;
+  rm_owed : m_owed m = 0%nat;
+  rm_task : exists tk k, tasks s = [tk] /\ t_body tk = BOnce k /\
+      (m_ran m = false -> m_unsub m = false -> t_keep tk = true /\ stage_ok d (alist (m_armed m)) 0 tk)
+}.
+
+Ltac mf := cbn [m_now m_ran m_unsub m_armed m_owed] in *.
+
+Lemma m_walk_inert d ls : forall out m, inert out -> walk (m_step d ls) m out = Some m.
+Proof.
+  induction out as [|x r IH]; intros m H; [reflexivity|]. cbn [walk].
+  assert (Hx : m_step d ls m x = Some m).
+  { pose proof (H x (or_introl eq_refl)) as Hx. destruct x; try contradiction; reflexivity. }
+  rewrite Hx. apply IH. intros y Hy. apply H. right. exact Hy.
+Qed.
+
+Definition msim (d : N) (v : val) (ls : list tlab) (s : tsys) (m : mstate) (l : tlab) : Prop :=
+  exists m', walk (m_step d ls) (m_label d m (Some l)) (snd (tstep (TTimer v d) s l)) = Some m' /\
+             RM d v (fst (tstep (TTimer v d) s l)) m'.
+
+Lemma m_run d v ls s m t : RM d v s m -> msim d v ls s m (LRun t).
+Proof.
+  intros [R1 R2 R3 R4 R5 (tk & k & T1 & T2 & T3)]. unfold msim.
+  destruct t as [|t].
+  2: { assert (Hst : tstep (TTimer v d) s (LRun (S t)) = (s, [])).
+    { cbn [tstep]. rewrite T1. destruct t; reflexivity. }
+    rewrite Hst. cbn [fst snd walk m_label]. eexists. split; [reflexivity|].
+    constructor; mf; auto. exists tk, k. auto. }
+  assert (Hst : tstep (TTimer v d) s (LRun 0) =
+                let '(tk1, res) := poll (now s) tk in
+                match res with
+                | PNone => (upd_tasks s [tk1], [])
+                | PRun _ _ _ => (upd_tasks s [tk1], [TOut (now s) (Next v); TOut (now s) Done])
+                end).
+  { cbn [tstep]. rewrite T1, R2. cbn [nth_error set_nth].
+    pose proof (poll_once (now s) tk k T2) as P. destruct (poll (now s) tk) as [tk1 res].
+    destruct P as [(-> & _)|(-> & _)]; reflexivity. }
+  rewrite Hst. clear Hst.
+  pose proof (poll_body_kept (now s) tk k T2) as Hb1.
+  cbn [m_label].
+  destruct (negb (m_ran m) && negb (m_unsub m)) eqn:Ewait.
+  - apply Bool.andb_true_iff in Ewait. destruct Ewait as [E1 E2].
+    apply Bool.negb_true_iff in E1. apply Bool.negb_true_iff in E2.
+    destruct (T3 E1 E2) as [Hk Hs].
+    pose proof (poll_pending (now s) tk k d (alist (m_armed m)) 0 Hk T2 Hs) as P. unfold due_now in P.
+    rewrite R1.
+    destruct (m_armed m) as [a|] eqn:Ea; cbn [alist armed_at Nat.eqb] in P.
+    + destruct (a + d <=? now s) eqn:Edue.
+      * destruct (poll (now s) tk) as [tk1 res]. cbn [fst snd] in *. subst res. cbn [fst snd walk m_step]. mf. cbn [Nat.pred].
+        eexists. split; [reflexivity|]. constructor; mf; cbn [upd_tasks now tasks jobs src_on main_task]; auto.
+        exists tk1, k. repeat split; auto; discriminate.
+      * destruct P as (P1 & P2 & P3 & P4). destruct (poll (now s) tk) as [tk1 res]. cbn [fst snd] in *. subst res. cbn [fst snd walk].
+        eexists. split; [reflexivity|]. constructor; mf; cbn [upd_tasks now tasks jobs src_on main_task]; auto.
+        exists tk1, k. repeat split; auto.
+    + destruct (d =? 0) eqn:Ed.
+      * destruct (poll (now s) tk) as [tk1 res]. cbn [fst snd] in *. subst res. cbn [fst snd walk m_step]. mf. cbn [Nat.pred].
+        eexists. split; [reflexivity|]. constructor; mf; cbn [upd_tasks now tasks jobs src_on main_task]; auto.
+        exists tk1, k. repeat split; auto; discriminate.
+      * destruct P as (P1 & P2 & P3 & P4). destruct (poll (now s) tk) as [tk1 res]. cbn [fst snd] in *. subst res. cbn [fst snd walk].
+        eexists. split; [reflexivity|]. constructor; mf; cbn [upd_tasks now tasks jobs src_on main_task]; auto.
+        exists tk1, k. repeat split; auto.
+  - assert (Hvac : m_ran m = false -> m_unsub m = false -> False).
+    { intros H1 H2. rewrite H1, H2 in Ewait. discriminate. }
+    destruct (poll (now s) tk) as [tk1 res]. cbn [fst] in Hb1.
+    destruct res; cbn [fst snd walk m_step]; mf; cbn [Nat.pred]; (eexists; split; [reflexivity|]);
+      constructor; mf; cbn [upd_tasks now tasks jobs src_on main_task]; auto.
+    all: exists tk1, k; split; [reflexivity|]; split; [exact Hb1|]; intros H1 H2; destruct (Hvac H1 H2).
+Qed.
+
+Lemma m_unsub_label d v ls s m : RM d v s m -> msim d v ls s m LUnsub.
+Proof.
+  intros [R1 R2 R3 R4 R5 (tk & k & T1 & T2 & T3)]. unfold msim.
+  cbn [tstep on_unsub]. rewrite R3.
+  pose proof (unsub_handle_eff (TTimer v d) s 0) as (E1 & E2 & E3 & E4 & E5).
+  pose proof (unsub_handle_frame (TTimer v d) s 0) as (G1 & G2 & G3 & G4).
+  pose proof (unsub_handle_inert (TTimer v d) s 0) as In1.
+  destruct (unsub_handle (TTimer v d) s 0) as [s' out]. cbn [fst snd] in *.
+  rewrite (m_walk_inert d ls out _ In1). eexists. split; [reflexivity|].
+  assert (Ht : exists tk', tasks s' = [tk'] /\ t_body tk' = BOnce k).
+  { rewrite T1 in E3. cbn [length] in E3. destruct (tasks s') as [|tk' [|x r]] eqn:Ets; try discriminate.
+    exists tk'. split; [reflexivity|]. destruct (E5 0%nat tk' eq_refl) as (tk0 & H0 & Hs & _).
+    rewrite T1 in H0. inversion H0; subst tk0. destruct Hs as [->| ->]; exact T2. }
+  destruct Ht as (tk' & Ht1 & Ht2).
+  constructor; cbn [m_label]; mf; try congruence.
+  - destruct E4 as [E4|E4]; congruence.
+  - exists tk', k. split; [exact Ht1|]. split; [exact Ht2|]. intros _ H. discriminate H.
+Qed.
+
+Lemma m_quiet d v ls s m l s' out :
+  RM d v s m -> tstep (TTimer v d) s l = (s', out) -> inert out ->
+  match l with LRun _ | LAdv _ | LUnsub => False | _ => True end ->
+  now s' = now s -> tasks s' = tasks s -> jobs s' = jobs s -> src_on s' = false -> main_task s' = main_task s ->
+  msim d v ls s m l.
+Proof.
+  intros [R1 R2 R3 R4 R5 (tk & k & T1 & T2 & T3)] Hst Hin Hl F1 F2 F3 F4 F5. unfold msim. rewrite Hst. cbn [fst snd].
+  rewrite (m_walk_inert d ls out _ Hin). eexists. split; [reflexivity|].
+  constructor; rewrite ?F1, ?F2, ?F3, ?F5; try (destruct l; try contradiction; cbn [m_label]; mf; assumption).
+  { destruct l; try contradiction; reflexivity. }
+  exists tk, k. split; [exact T1|]. split; [exact T2|]. destruct l; try contradiction; exact T3.
+Qed.
+
+Lemma m_step_sim d v :
+  forall ls_full done l r s m, ls_full = done ++ l :: r -> RM d v s m ->
+    exists m', walk (m_step d ls_full) m (TMark (length done) :: snd (tstep (TTimer v d) s l)) = Some m' /\
+               RM d v (fst (tstep (TTimer v d) s l)) m'.
+Proof.
+  intros ls_full done l r s m E R.
+  cbn [walk m_step]. rewrite (rm_owed _ _ _ _ R), E, nth_error_mid. rewrite <- E.
+  change (msim d v ls_full s m l).
+  pose proof (rm_on _ _ _ _ R) as Hon.
+  destruct l.
+  - (* the timer has no input *)
+    cbn [tstep] in *. destruct (src_done s) eqn:Ed.
+    + apply (m_quiet d v ls_full s m (LSrc e) s [] R); auto. { cbn [tstep]. rewrite Ed. reflexivity. } apply inert_nil.
+    + apply (m_quiet d v ls_full s m (LSrc e) (if is_term e then upd_src s false true else s) [] R); auto;
+        try (destruct (is_term e); reflexivity). { cbn [tstep]. rewrite Ed, Hon. reflexivity. } apply inert_nil.
+      destruct (is_term e); [reflexivity|exact Hon].
+  - apply m_run; assumption.
+  - destruct R as [R1 R2 R3 R4 R5 (tk & k & T1 & T2 & T3)]. unfold msim. cbn [tstep fst snd walk m_label]. eexists. split; [reflexivity|].
+    constructor; mf; cbn [upd_now now tasks jobs src_on main_task]; auto; [congruence|exists tk, k; auto].
+  - apply m_unsub_label; assumption.
+  - apply (m_quiet d v ls_full s m LClosed s [TRet (sub_closed (TTimer v d) s)] R); auto. apply inert_one. exact I.
+  - apply (m_quiet d v ls_full s m LFinish (upd_fin s) [] R); auto. apply inert_nil.
+  - apply (m_quiet d v ls_full s m _ s [] R); auto. apply inert_nil.
+  - apply (m_quiet d v ls_full s m _ s [] R); auto. apply inert_nil.
+  - apply (m_quiet d v ls_full s m _ s [] R); auto. apply inert_nil.
+  - apply (m_quiet d v ls_full s m _ s [] R); auto. apply inert_nil.
+  - apply (m_quiet d v ls_full s m _ s [] R); auto. apply inert_nil.
+Qed.
+
+Lemma rm_init d v : RM d v (tinit (TTimer v d)) m0.
+Proof.
+  cbn [tinit schedule upd_main upd_src]. constructor; cbn; auto.
+  eexists. eexists. split; [reflexivity|]. split; [reflexivity|]. intros _ _. split; [reflexivity|].
+  unfold stage_ok. cbn. auto.
+Qed.
+
+(* timer: polled when it is due, before unsubscribe(), it emits its item and completes in that poll *)
+Theorem timer_is_complete : forall v d ls, timer_complete d ls (run_timed (TTimer v d) ls) = true.
+Proof.
+  intros v d ls. unfold timer_complete, run_timed.
+  destruct (BufferLaws.run_sim_state (m_step d) (TTimer v d) (RM d v) (m_step_sim d v) ls [] (tinit (TTimer v d)) m0 ls eq_refl (rm_init d v))
+    as (m' & s' & Hw & R).
+  cbn [length] in Hw. rewrite Hw, (rm_owed _ _ _ _ R). reflexivity.
+Qed.
+
+Theorem timed_complete_holds : forall o ls, timed_complete o ls (run_timed o ls) = true.
+Proof.
+  intros o ls. destruct o; try reflexivity; cbn [timed_complete];
+    [apply delay_is_complete|apply observe_on_is_complete|apply delay_subscription_is_complete|apply subscribe_on_is_complete
+    |apply timer_is_complete].
+Qed.
+
+Example timer_complete_rejects_a_lost_completion :
+  timer_complete 2 [LRun 0; LAdv 2; LRun 0] [TMark 0; TMark 1; TMark 2; TOut 2 (Next (VZ 9))] = false /\
+  timer_complete 2 [LRun 0; LAdv 2; LRun 0] [TMark 0; TMark 1; TMark 2; TOut 2 (Next (VZ 9)); TOut 2 Done] = true /\
+  timer_complete 2 [LRun 0; LAdv 1; LRun 0] [TMark 0; TMark 1; TMark 2] = true.
 Proof. repeat split; reflexivity. Qed.
